@@ -29,6 +29,12 @@ type solverSpec struct {
 
 var solvers = []solverSpec{
 	{"z3-new", func(f string, t int) []string { return []string{"z3-new", fmt.Sprintf("-T:%d", t), "-smt2", f} }},
+	// pure E-matching (no model-based quantifier instantiation, no automatic
+	// configuration): decides many quantified heap obligations in well under a
+	// second that the default configuration times out on
+	{"z3-em", func(f string, t int) []string {
+		return []string{"z3-new", fmt.Sprintf("-T:%d", t), "smt.auto_config=false", "smt.mbqi=false", "-smt2", f}
+	}},
 	{"z3", func(f string, t int) []string { return []string{"/usr/bin/z3", fmt.Sprintf("-T:%d", t), "-smt2", f} }},
 	{"cvc5", func(f string, t int) []string {
 		return []string{"cvc5", "-q", "--lang=smt2", fmt.Sprintf("--tlimit=%d", t*1000), f}
@@ -87,14 +93,35 @@ func Solve(script string, dir string, name string, timeoutS int) SolveResult {
 	if timeoutS < quickT {
 		quickT = timeoutS
 	}
-	r := runSolver(ctx, solvers[0], file, quickT)
-	tried := []string{fmt.Sprintf("%s:%s:%.2fs", r.Solver, r.Status, r.Time)}
-	if r.Status == "unsat" || r.Status == "sat" {
-		r.Tried = tried
-		return r
-	}
-	if timeoutS <= quickT {
-		// still give the other two a chance within the same budget
+	// stage 1: the two z3 5.x configurations, briefly
+	var r SolveResult
+	var tried []string
+	{
+		qctx, qcancel := context.WithCancel(ctx)
+		qch := make(chan SolveResult, 2)
+		for _, sp := range solvers[:2] {
+			go func(sp solverSpec) { qch <- runSolver(qctx, sp, file, quickT) }(sp)
+		}
+		decided := false
+		for k := 0; k < 2; k++ {
+			rr := <-qch
+			if rr.Status == "cancelled" {
+				continue
+			}
+			tried = append(tried, fmt.Sprintf("%s:%s:%.2fs", rr.Solver, rr.Status, rr.Time))
+			if !decided && (rr.Status == "unsat" || (rr.Status == "sat" && rr.Solver == "z3-new")) {
+				decided = true
+				r = rr
+				qcancel()
+			} else if !decided && k == 0 {
+				r = rr
+			}
+		}
+		qcancel()
+		if decided {
+			r.Tried = tried
+			return r
+		}
 	}
 	rctx, cancel := context.WithCancel(ctx)
 	defer cancel()
